@@ -317,7 +317,12 @@ impl AuxBoxList {
 impl AuxBoxList {
     pub(crate) fn jbrd(&self) -> AuxBoxData<&jxl_jbr::JpegBitstreamData> {
         if let Some(data) = self.jbrd.data() {
-            AuxBoxData::Data(data)
+            if self.current_box_ty == Some(ContainerBoxType::JPEG_RECONSTRUCTION) {
+                // The header is parsed but the rest of the box is still arriving.
+                AuxBoxData::Decoding
+            } else {
+                AuxBoxData::Data(data)
+            }
         } else if self.last_box
             && self.current_box_ty != Some(ContainerBoxType::JPEG_RECONSTRUCTION)
         {
